@@ -102,6 +102,8 @@ pub trait VK: Sized + ReadableVec<usize, <Self as VK>::T> {
     fn stored_scans(&self, _from: usize, _to: usize) -> Option<(Vec<<Self as VK>::T>, Vec<<Self as VK>::T>)> {
         None
     }
+    /// CachedVec wrapped around a read-only clone: cold (materialising) pass, then cache-hit pass, then get_at
+    fn cached_check(&self, view: &[Option<<Self as VK>::T>], b: usize, rep: &mut crate::reads::ReadReport);
     /// VecReader::try_get(i) (raw formats)
     fn point_read(&self, _i: usize) -> Option<Option<<Self as VK>::T>> {
         None
@@ -181,6 +183,23 @@ macro_rules! common_vk {
         }
         fn boxed(&self) -> vecdb::ReadableBoxedVec<usize, Self::T> {
             vecdb::ReadableCloneableVec::read_only_boxed_clone(self)
+        }
+        fn cached_check(&self, view: &[Option<Self::T>], b: usize, rep: &mut crate::reads::ReadReport) {
+            let c = vecdb::CachedVec::wrap(vecdb::StoredVec::read_only_clone(self));
+            let mut cb = 0u64;
+            crate::reads::check_reads::<Self::T, _>(&c, "cached.", view, b, true, rep, &mut cb);
+            for &i in &crate::reads::boundaries(view.len(), b) {
+                rep.calls += 1;
+                let want = view.get(i).copied().flatten().map(|x| x.bits());
+                match catch_unwind(AssertUnwindSafe(|| c.get_at(i).map(|x| x.bits()))) {
+                    Ok(g) if g == want => {}
+                    Ok(_) => rep.bad.push(("cached.get_at".into(), i, i + 1, "differs".into())),
+                    Err(_) => rep.bad.push(("cached.get_at".into(), i, i + 1, "panicked".into())),
+                }
+            }
+            // a budget that refuses: every read falls through to the inner vector
+            let cold = vecdb::CachedVec::wrap_budgeted(vecdb::StoredVec::read_only_clone(self), &crate::reads::REFUSE, std::sync::Arc::new(std::sync::atomic::AtomicU64::new(0)));
+            crate::reads::check_reads::<Self::T, _>(&cold, "cached-nobudget.", view, b, true, rep, &mut cb);
         }
         fn open(db: &Database, name: &str, k: u16, version: u32) -> R<Self> {
             let o: ImportOptions = (db, name, Version::new(version)).into();
@@ -687,6 +706,7 @@ fn run_one<V: VK>(steps: &[Value], cfg: &Cfg, st: &mut Stats, bidx: usize) {
                 let mut cb = 0u64;
                 crate::reads::check_reads::<V::T, V::RO>(&ro, "ro.", &view, b, true, &mut rep, &mut cb);
                 crate::reads::check_reads_dyn::<V::T>(&*bx, "boxed.", &view, b, &mut rep);
+                vr.cached_check(&view, b, &mut rep);
                 let len = view.len();
                 for &from in &crate::reads::boundaries(len, b) {
                     for &to in &crate::reads::boundaries(len, b) {
